@@ -90,6 +90,12 @@ def run(replay=None):
         'the float subnormal range, just under FLT_MAX, values rounding to zero), judged against python\'s IEEE conversion (independent oracle) and the Flocq model, everything else unchanged; '
         '(c) every committed golden file (golden/manifest.json, one per serialisable layer arrangement) loads, has the recorded contents, re-dumps to the same bytes, and is accepted '
         'by the model reader with the same contents. A case = (stack pair or file, field tokens); non-trivial = at least one stored scalar; distinct by those.')
+    with core.Lock('coq'):
+        rep, tlog = core.translate()
+    for u in rep['untranslatable']:
+        if u['group'] == 'Tags':
+            chk.obligation_broken('translation of ' + u['name'], u['why'])
+    chk.cov['format_constants_in_source'] = {k: rep.get('tags', {}).get(k) for k in ('magic', 'footer')}
     chk.prove('Properties_C07.v')
     r = chk.rng
     pairs = []
